@@ -51,7 +51,7 @@ BeginNode ==
 \* they are ended after the root)
 BubbleBegin ==
     /\ phase = "bubble-begin"
-    /\ LET pending == { a \in Ancestors(root) : a \notin mon.open } IN
+    /\ LET pending == { a \in Ancestors(root) : ~InBag(mon.open, a) } IN
        IF pending = {} THEN phase' = "visit" /\ UNCHANGED << mon, cnt, stack, err >>
        ELSE LET a == CHOOSE a \in pending : \A b \in pending : Len(b) <= Len(a) IN
             /\ mon' = Step(root, mon, Ev("begin", a, FALSE))
@@ -95,5 +95,5 @@ Next == BeginNode \/ BubbleBegin \/ Visit \/ EndNode \/ Return
 Spec == Init /\ [][Next]_vars
 
 NoViolation == mon.viol = {}
-ReturnsBalanced == phase = "done" => mon.open = {}
+ReturnsBalanced == phase = "done" => DOMAIN mon.open = {}
 =============================================================================
